@@ -196,3 +196,51 @@ package ast
 //@ extern func context.Background() (c)
 //@   nopanic
 //@   ensures c != nil
+
+// ---------------------------------------------------------------------------------------------------------
+// C16: rule names stay unique (KBInv: every entry is filed under its own name) and removed rules stay removed
+// ---------------------------------------------------------------------------------------------------------
+//@ macro func sameEntries(m map[string]*RuleEntry, m0 map[string]*RuleEntry) bool { return forall k string :: has(m, k) == old(has(m0, k)) && (has(m, k) ==> m[k] == old(m0[k])) }
+//@ macro func GrlInv(g *Grl) bool { return forall k string :: has(g.RuleEntries, k) ==> g.RuleEntries[k] != nil && g.RuleEntries[k].RuleName == k }
+
+//@ func (e *KnowledgeBase) ContainsRuleEntry(name) (r)
+//@   serves C16
+//@   requires e != nil
+//@   nopanic
+//@   ensures r == has(e.RuleEntries, name)
+
+// a name that already exists is rejected and the existing rule stays in force; otherwise exactly one entry is added
+//@ func (e *KnowledgeBase) AddRuleEntry(entry) (err)
+//@   serves C16
+//@   requires e != nil && entry != nil && KBInv(e)
+//@   nopanic
+//@   modifies map[string]*RuleEntry
+//@   ensures old(has(e.RuleEntries, entry.RuleName)) ==> err != nil && (forall k string :: has(e.RuleEntries, k) == old(has(e.RuleEntries, k)) && e.RuleEntries[k] == old(e.RuleEntries[k]))
+//@   ensures !old(has(e.RuleEntries, entry.RuleName)) ==> err == nil && has(e.RuleEntries, entry.RuleName) && e.RuleEntries[entry.RuleName] == entry
+//@        && (forall k string :: k != entry.RuleName ==> has(e.RuleEntries, k) == old(has(e.RuleEntries, k)) && e.RuleEntries[k] == old(e.RuleEntries[k]))
+//@   ensures KBInv(e)
+//@   ensures forall m map[string]*RuleEntry, k string :: m != e.RuleEntries ==> has(m, k) == old(has(m, k)) && m[k] == old(m[k])
+
+//@ func (g *Grl) ReceiveRuleEntry(entry) (err)
+//@   serves C16
+//@   requires g != nil && entry != nil && GrlInv(g)
+//@   opt alloc=1
+//@   nopanic
+//@   modifies map[string]*RuleEntry, Grl.RuleEntries, alloc
+//@   ensures old(has(g.RuleEntries, entry.RuleName)) ==> err != nil && g.RuleEntries == old(g.RuleEntries) && (forall k string :: has(g.RuleEntries, k) == old(has(g.RuleEntries, k)) && g.RuleEntries[k] == old(g.RuleEntries[k]))
+//@   ensures !old(has(g.RuleEntries, entry.RuleName)) ==> err == nil && has(g.RuleEntries, entry.RuleName) && g.RuleEntries[entry.RuleName] == entry
+//@        && (forall k string :: k != entry.RuleName ==> has(g.RuleEntries, k) == old(has(g.RuleEntries, k)) && (has(g.RuleEntries, k) ==> g.RuleEntries[k] == old(g.RuleEntries[k])))
+//@   ensures GrlInv(g)
+
+// removal: the entry is marked Deleted, its name becomes free, EVERY OTHER ENTRY stays filed under its own name
+//@ func (e *KnowledgeBase) RemoveRuleEntry(name) ()
+//@   serves C16 C09
+//@   requires e != nil && KBInv(e)
+//@   nopanic
+//@   modifies map[string]*RuleEntry, RuleEntry.RuleName, RuleEntry.Deleted
+//@   ensures[C16] marked: old(has(e.RuleEntries, name)) ==> old(e.RuleEntries[name]).Deleted && !has(e.RuleEntries, name)
+//@   ensures[C16,C09] otherskept: forall k string :: k != name && old(has(e.RuleEntries, k)) ==> has(e.RuleEntries, k) && e.RuleEntries[k] == old(e.RuleEntries[k])
+//@   ensures[C16] inv: KBInv(e)
+//@   ensures[C16] noop: !old(has(e.RuleEntries, name)) ==> (forall k string :: has(e.RuleEntries, k) == old(has(e.RuleEntries, k)) && e.RuleEntries[k] == old(e.RuleEntries[k]))
+//@   ensures[C16] sticky: forall re *RuleEntry :: old(re.Deleted) ==> re.Deleted
+//@   ensures[C16] othersnames: forall re *RuleEntry :: !(old(has(e.RuleEntries, name)) && re == old(e.RuleEntries[name])) ==> re.RuleName == old(re.RuleName) && re.Deleted == old(re.Deleted)
